@@ -57,7 +57,12 @@ package datatype
 //@ end
 //@
 //@ func Decode(Type, b) (r, err)
-//@   property C01 C03 C04
+//@   property C01 C03 C04 C17
+//@   # C17 "every data type name a dictionary may declare can be decoded": Decode hands the payload to the entry the
+//@   # Decoder table holds for the type (the table is checked against datatype.Available by a table obligation), and
+//@   # refuses only a type the table does not hold
+//@   atcall DecoderFunc: [C17] the_table_entry_for_the_type: has(Decoder, Type) && FN == Decoder[Type]
+//@   ensures [C17] only_an_unlisted_type_is_unknown: !has(Decoder, Type) ==> err != nil
 //@   modifies
 //@   assume decoder_entries_are_functions: forall t TypeID :: has(Decoder, t) ==> Decoder[t] != nil
 //@   ensures nonnil: err == nil ==> r != nil && valid(r)
